@@ -130,6 +130,9 @@ func verifyRoot(ld *Loaded, sf *SpecFile, fn *ssa.Function, fs *FuncSpec, prop s
 		if fs.Monitor != "" && out.monOld != nil {
 			old = out.monOld
 		}
+		if fs.Monitor != "" {
+			out = e.postView(out)
+		}
 		env = e.withLets(fs, env, out, old)
 		if len(fs.Ensures) > 0 {
 			e.cover("returns", allProps(fs), outG)
